@@ -93,12 +93,13 @@ func directivesSeq2(s string) iter.Seq2[string, string] {
 		for part := range TrimmedCSVSeq(s) {
 			key, value, found := strings.Cut(part, "=")
 			if !found {
-				key = textproto.TrimString(part)
 				value = ""
 			} else {
 				// value = textproto.TrimString(ParseQuotedString(value))
 				value = textproto.TrimString(value)
 			}
+			// Directive names are case-insensitive (RFC 9111 §5.2).
+			key = strings.ToLower(textproto.TrimString(key))
 			if len(key) == 0 {
 				continue
 			}
@@ -122,9 +123,17 @@ func hasToken(d map[string]string, token string) bool {
 
 func getDurationDirective(d map[string]string, token string) (dur time.Duration, valid bool) {
 	if v, ok := d[token]; ok {
-		return RawDeltaSeconds(v).Value()
+		// The argument may be given in token or quoted-string form (RFC 9111 §5.2).
+		return RawDeltaSeconds(ParseQuotedString(v)).Value()
 	}
 	return
+}
+
+// cacheControlValue returns the combined value of all Cache-Control field
+// lines; a field split over several lines is equivalent to the comma-separated
+// list of their values (RFC 9110 §5.3).
+func cacheControlValue(header http.Header) string {
+	return strings.Join(header.Values("Cache-Control"), ",")
 }
 
 // CCRequestDirectives is a map of request directives from the Cache-Control
@@ -136,7 +145,7 @@ func getDurationDirective(d map[string]string, token string) (dur time.Duration,
 type CCRequestDirectives map[string]string
 
 func ParseCCRequestDirectives(header http.Header) CCRequestDirectives {
-	value := header.Get("Cache-Control")
+	value := cacheControlValue(header)
 	if value == "" {
 		return nil
 	}
@@ -151,7 +160,7 @@ func (d CCRequestDirectives) MaxAge() (dur time.Duration, valid bool) {
 // MaxStale parses the "max-stale" request directive as defined in RFC 9111, §5.2.1.2.
 func (d CCRequestDirectives) MaxStale() (dur RawDeltaSeconds, valid bool) {
 	if v, ok := d["max-stale"]; ok {
-		return RawDeltaSeconds(v), true
+		return RawDeltaSeconds(ParseQuotedString(v)), true
 	}
 	return
 }
@@ -195,7 +204,7 @@ func (d CCRequestDirectives) StaleIfError() (dur time.Duration, valid bool) {
 type CCResponseDirectives map[string]string
 
 func ParseCCResponseDirectives(header http.Header) CCResponseDirectives {
-	value := header.Get("Cache-Control")
+	value := cacheControlValue(header)
 	if value == "" {
 		return nil
 	}
